@@ -273,6 +273,7 @@ def gen(tier, rng):
     out.append(f"typedefs {z}")
     out.append(f"typedef_bits {z}")
     out.append(f"sratio {z}")
+    out.append(f"constraints {z}")
     sweep = range(-2000, 2001)
     for i in range(NP):
         for j in range(NP):
